@@ -9,6 +9,7 @@
 //!   O ...          what the implementation did / returned (canonicalised)
 //!   V <prop> ...   the direct oracle saw the *property* fail on the real code
 //!   # ...          statistics
+mod fam_codecw;
 mod fam_iovec;
 mod fam_readn;
 mod util;
@@ -21,6 +22,7 @@ fn families() -> Vec<Box<dyn Family>> {
     vec![
         Box::new(fam_readn::ReadNFamily),
         Box::new(fam_iovec::IovecFamily),
+        Box::new(fam_codecw::CodecWFamily),
     ]
 }
 
